@@ -430,7 +430,20 @@ def minimize_lbfgsb(
                 ),
             )
         else:
-            return checkpoint
+            return OptimizeResult(
+                fun=f0,
+                jac=checkpoint.jac,
+                nfev=sf.nfev,
+                njev=sf.ngev,
+                nit=istate.nit,
+                status=istate.warnflag,
+                message=istate.task_str,
+                x=x,
+                success=istate.is_success,
+                hess_inv=LbfgsInvHessProduct(
+                    checkpoint.hess_inv.sk[-maxcor:], checkpoint.hess_inv.yk[-maxcor:]
+                ),
+            )
 
     # Compute the first gradient if no checkpoint provided
     if checkpoint is None:
